@@ -59,6 +59,22 @@ pub fn small_order_encodings() -> Vec<(String, [u8; 32])> {
 struct Verifiers;
 
 /// every dryoc verification entry point for pure mode; returns (name, accepted)
+/// the Ed25519 challenge hash input: pure H(R || A || M), or pre-hashed H(dom2(1, "") || R || A || SHA-512(M))
+fn challenge(ph: bool, r: &[u8; 32], a: &[u8; 32], m: &[u8]) -> [u8; 64] {
+    let mut h = Vec::new();
+    if ph {
+        h.extend_from_slice(b"SigEd25519 no Ed25519 collisions\x01\x00");
+    }
+    h.extend_from_slice(r);
+    h.extend_from_slice(a);
+    if ph {
+        h.extend_from_slice(&na::sha512(m));
+    } else {
+        h.extend_from_slice(m);
+    }
+    na::sha512(&h)
+}
+
 fn verify_all_pure(cx: &mut Ctx, sig: &[u8; 64], msg: &[u8], pk: &[u8; 32], case: &dyn Fn() -> serde_json::Value) -> Vec<(&'static str, bool)> {
     let mut out = Vec::new();
     if let Some(r) = call(cx, "C06|crypto_sign_verify_detached", "crypto_sign_verify_detached", case, || crypto_sign_verify_detached(sig, msg, pk)) {
@@ -306,24 +322,35 @@ pub fn run(cx: &mut Ctx) {
             let mut sigb = [0u8; 64];
             sigb[..32].copy_from_slice(&big_r);
             sigb[32..].copy_from_slice(&r);
-            let mut found = None;
-            for ctr in 0u32..400 {
-                let mut m = b"small-order A forgery ".to_vec();
-                m.extend_from_slice(&ctr.to_le_bytes());
-                m.extend_from_slice(&rng.bytes(rep));
-                let mut h = Vec::new();
-                h.extend_from_slice(&big_r);
-                h.extend_from_slice(enc);
-                h.extend_from_slice(&m);
-                let k = na::ed_scalar_reduce(&na::sha512(&h));
-                if k[0] & 7 == 0 {
-                    found = Some(m);
-                    break;
+            for ph in [false, true] {
+                let mut found = None;
+                for ctr in 0u32..400 {
+                    let mut m = b"small-order A forgery ".to_vec();
+                    m.extend_from_slice(&ctr.to_le_bytes());
+                    m.extend_from_slice(&rng.bytes(rep));
+                    let k = na::ed_scalar_reduce(&challenge(ph, &big_r, enc, &m));
+                    if k[0] & 7 == 0 {
+                        found = Some(m);
+                        break;
+                    }
+                }
+                if let Some(m) = found {
+                    decide(cx, if ph { "small_order_public_key(equation-valid forgery)|prehashed" } else { "small_order_public_key(equation-valid forgery)" }, ph, &sigb, &m, enc, true);
+                    cx.cover(if ph { "small_order_A_prehashed" } else { "small_order_A" }, en);
                 }
             }
-            if let Some(m) = found {
-                decide(cx, "small_order_public_key(equation-valid forgery)", false, &sigb, &m, enc, true);
-                cx.cover("small_order_A", en);
+            // (1b) small-order A *and* small-order R with S = 0: 0*B = R + k*A holds whenever R = -k*A; with A = R =
+            //      identity it holds for every message (a universal forgery unless the order checks stop it)
+            for (rn, renc) in &small {
+                if rep > 0 && !rn.contains("identity") {
+                    continue;
+                }
+                let mut sig0 = [0u8; 64];
+                sig0[..32].copy_from_slice(renc);
+                let m = rng.bytes(rep + 1);
+                for ph in [false, true] {
+                    decide(cx, if ph { "small_order_A_and_R(S=0)|prehashed" } else { "small_order_A_and_R(S=0)" }, ph, &sig0, &m, enc, true);
+                }
             }
             // (2) as commitment R with an honest key: S = k*a makes SB = R + kA hold up to the small-order R
             //     (exactly when R is the identity); the explicit small-order check on R must stop it.
@@ -338,18 +365,17 @@ pub fn run(cx: &mut Ctx) {
             let a_red = na::ed_scalar_reduce(&a);
             let mlen = rng.range(0, 50);
             let m = rng.bytes(mlen);
-            let mut h = Vec::new();
-            h.extend_from_slice(enc);
-            h.extend_from_slice(&pk);
-            h.extend_from_slice(&m);
-            let k = na::ed_scalar_reduce(&na::sha512(&h));
-            let s = na::ed_scalar_mul(&k, &a_red);
-            let mut sigr = [0u8; 64];
-            sigr[..32].copy_from_slice(enc);
-            sigr[32..].copy_from_slice(&s);
-            decide(cx, "small_order_R(S=k*a)", false, &sigr, &m, &pk, true);
-            // same through the pre-hashed verifier (dom2 prefix makes k differ; still must be rejected)
-            decide(cx, "small_order_R_prehashed", true, &sigr, &m, &pk, true);
+            for ph in [false, true] {
+                let k = na::ed_scalar_reduce(&challenge(ph, enc, &pk, &m));
+                let s = na::ed_scalar_mul(&k, &a_red);
+                let mut sigr = [0u8; 64];
+                sigr[..32].copy_from_slice(enc);
+                sigr[32..].copy_from_slice(&s);
+                // equation-valid for this mode (exactly when R is the identity); only the order check on R stops it
+                decide(cx, if ph { "small_order_R(S=k*a)|prehashed" } else { "small_order_R(S=k*a)" }, ph, &sigr, &m, &pk, true);
+                // and presented to the other mode's verifier
+                decide(cx, if ph { "small_order_R(prehashed S) to pure verify" } else { "small_order_R_prehashed" }, !ph, &sigr, &m, &pk, true);
+            }
             cx.cover("small_order_R", en);
         }
     }
@@ -383,25 +409,22 @@ pub fn run(cx: &mut Ctx) {
             cx.key(&format!("mixed {} {}", tn, i));
             // one message with k*T = O (libsodium accepts) and one with k*T != O (both reject)
             let mut done = (false, false);
+            let ph = i % 3 == 2;
             for ctr in 0u32..200 {
                 let mut m = b"mixed-order key ".to_vec();
                 m.extend_from_slice(&ctr.to_le_bytes());
-                let mut h = Vec::new();
-                h.extend_from_slice(&big_r);
-                h.extend_from_slice(&pk_mixed);
-                h.extend_from_slice(&m);
-                let k = Scalar::from_bytes_mod_order_wide(&na::sha512(&h));
+                let k = Scalar::from_bytes_mod_order_wide(&challenge(ph, &big_r, &pk_mixed, &m));
                 let s = r + k * a;
                 let mut sig = [0u8; 64];
                 sig[..32].copy_from_slice(&big_r);
                 sig[32..].copy_from_slice(s.as_bytes());
                 let kt_is_identity = (k * t).compress().to_bytes() == CompressedEdwardsY([1, 0, 0, 0, 0, 0, 0, 0, 0, 0, 0, 0, 0, 0, 0, 0, 0, 0, 0, 0, 0, 0, 0, 0, 0, 0, 0, 0, 0, 0, 0, 0]).to_bytes();
                 if kt_is_identity && !done.0 {
-                    decide(cx, "mixed_order_public_key(k*T=identity)", false, &sig, &m, &pk_mixed, false);
+                    decide(cx, if ph { "mixed_order_public_key(k*T=identity)|prehashed" } else { "mixed_order_public_key(k*T=identity)" }, ph, &sig, &m, &pk_mixed, false);
                     done.0 = true;
                     cx.cover("mixed_order_T", tn);
                 } else if !kt_is_identity && !done.1 {
-                    decide(cx, "mixed_order_public_key(k*T!=identity)", false, &sig, &m, &pk_mixed, true);
+                    decide(cx, if ph { "mixed_order_public_key(k*T!=identity)|prehashed" } else { "mixed_order_public_key(k*T!=identity)" }, ph, &sig, &m, &pk_mixed, true);
                     done.1 = true;
                 }
                 if done.0 && done.1 {
